@@ -74,8 +74,8 @@ def ecdhToPublic (k : Key) : Res Key :=
            | .x25519 => .ok (b.set (lbl Iana.OKPKeyParameterX) (.bytes (x25519 d x25519BasePoint)))
            | .nist cv =>
              match scalarBaseMult cv (os2ip d) with
-             | .affine px py => .ok ((b.set (lbl Iana.EC2KeyParameterX) (.bytes (i2osp px cv.byteLen))).set
-                                      (lbl Iana.EC2KeyParameterY) (.bytes (i2osp py cv.byteLen)))
+             | .affine px py => .ok ((b.set (lbl Iana.EC2KeyParameterX) (.bytes (fixedLen cv.byteLen px))).set
+                                      (lbl Iana.EC2KeyParameterY) (.bytes (fixedLen cv.byteLen py)))
              | .inf => .err "scalar")
     | _ => .err "key-invalid"
 
@@ -130,7 +130,7 @@ def ecdhDerive (k : Key) (cur : Option (List Int)) (remote : Key) : Res Bytes :=
            | .ok (.nist rc rx ry), .nist cv =>
              if rc.p != cv.p then .err "curve-mismatch"
              else (match ecdh cv (os2ip d) rx ry with
-               | some sx => .ok (i2osp sx cv.byteLen)
+               | some sx => .ok (fixedLen cv.byteLen sx)
                | none => .err "not-on-curve")
            | .ok _, _ => .err "curve-mismatch"
            | .err e, _ => .err e
